@@ -6,6 +6,7 @@ import (
 	"fmt"
 	"go/token"
 	"go/types"
+	"path/filepath"
 	"strconv"
 	"strings"
 
@@ -992,4 +993,60 @@ func (fr *frame) writeTo(w value, s value) value {
 		panic(unsupported(fmt.Sprintf("writeTo: %s has no Write", wi.t)))
 	}
 	return call(fr.i, fr, token.NoPos, m, []value{wi.v, symBytes{s}})
+}
+
+// realBody runs the intercepted function's own SSA body.
+func realBody(fr *frame, args []value) value { return runSSABody(fr.i, fr, fr.fn, args, nil) }
+
+func init() {
+	register("path/filepath.Join", func(fr *frame, a []value) value {
+		elems := a[0].([]value)
+		anySym := false
+		for _, e := range elems {
+			if _, ok := normStr(e).(string); !ok {
+				anySym = true
+			}
+		}
+		if !anySym {
+			return realBody(fr, a)
+		}
+		// symbolic elements are assumed to be clean, separator-free path components
+		// (harness alphabets exclude '/' and '.'); empty elements are skipped as Join does
+		var parts []value
+		for _, e := range elems {
+			e = normStr(e)
+			if s, ok := e.(string); ok {
+				if s == "" {
+					continue
+				}
+				parts = append(parts, filepath.Clean(s))
+				continue
+			}
+			if fr.truth(binop(fr, token.EQL, nil, strLenValue(e), 0)) {
+				continue
+			}
+			parts = append(parts, e)
+		}
+		if len(parts) == 0 {
+			return ""
+		}
+		return joinValue(parts, "/")
+	})
+	register("path/filepath.Clean", func(fr *frame, a []value) value {
+		if _, ok := normStr(a[0]).(string); ok {
+			return realBody(fr, []value{normStr(a[0])})
+		}
+		if fr.run().flags["assumeClean"] != 0 {
+			return a[0]
+		}
+		// scan: convert to rep B and run the real code
+		if sa, ok := a[0].(symStr); ok {
+			return realBody(fr, []value{fr.strAtoB(sa)})
+		}
+		return realBody(fr, a)
+	})
+	register(symPkg+"AssumeCleanPaths", func(fr *frame, a []value) value {
+		fr.run().flags["assumeClean"] = 1
+		return nil
+	})
 }
